@@ -15,7 +15,7 @@ import z3
 
 from . import frontend
 from . import spec as specmod
-from .values import (PList, SV, SInt, SReal, SBool, SStr, SBits, SAny, SChoice, SSeq,
+from .values import (PList, SOptInt, SV, SInt, SReal, SBool, SStr, SBits, SAny, SChoice, SSeq,
                      SObj, SDict, Closure, BoundMethod, SuperProxy, ExcVal,
                      fresh_name, lift, simplify_concrete)
 
@@ -153,6 +153,7 @@ class Path:
     self.no_fork = 0
     self.scope_depth = 0
     self.deferred = []
+    self.nf_exits_stack = []
     self.symbols = {}        # name -> z3 const, for models
 
   # -- decisions ------------------------------------------------------------
@@ -247,6 +248,32 @@ class Path:
         return False
     return _S()
 
+  def raise_if(self, cond, exc):
+    """The callee raises `exc` iff `cond`.  Forks normally; inside a no-fork
+    loop-body summary the condition is recorded as an abnormal exit of the
+    body and evaluation continues under its negation."""
+    if isinstance(cond, bool):
+      if cond:
+        raise PyRaise(exc)
+      return
+    cond = z3.simplify(cond)
+    if z3.is_false(cond):
+      return
+    if z3.is_true(cond):
+      raise PyRaise(exc)
+    if self.no_fork:
+      if not self.nf_exits_stack:
+        # not inside a loop-body summary: the condition must be decided
+        # (the non-raising answer first: under a vacuous scope both hold)
+        if not self.branch(z3.Not(cond)):
+          raise PyRaise(exc)
+        return
+      self.nf_exits_stack[-1].append(cond)
+      self.solver.add(z3.Not(cond))     # scoped: removed by the enclosing pop
+      return
+    if self.branch(cond):
+      raise PyRaise(exc)
+
   def fresh_int(self, name='i'):
     z = z3.Int(fresh_name(name))
     return z
@@ -340,9 +367,11 @@ class Explorer:
     backend = 'z3'
     if r == z3.unknown:
       from . import solve
-      r2, backend2 = solve.second_opinion(s, self.goal_timeout_ms)
+      r2, backend2, model2 = solve.retry(s, self.goal_timeout_ms)
       if r2 is not None:
         r, backend = r2, backend2
+        if model2 is not None:
+          model = model2
     s.pop()
     s.set('timeout', self.branch_timeout_ms)
     dt = time.time() - t0
@@ -409,6 +438,8 @@ class Interp:
     v = self.resolve(v)
     if isinstance(v, SBool):
       return v.z
+    if isinstance(v, SOptInt):
+      return z3.And(v.present, v.z != 0)
     if isinstance(v, SInt):
       return v.z != 0
     if isinstance(v, SReal):
@@ -893,6 +924,17 @@ class Interp:
       items = it.ghost.get('items')
       if items is not None:
         return self.iterate(items, frame)
+      if not it.ghost.get('iterating'):
+        it.ghost['iterating'] = True
+        try:
+          m = self.getattr_(it, '__iter__', frame)
+          r = self.resolve(self.call(m, [], {}, frame))
+        finally:
+          it.ghost['iterating'] = False
+        if r is not it:
+          if isinstance(r, SSeq):
+            it.ghost['iter_seq'] = r
+          return self.iterate(r, frame)
     if isinstance(it, SAny):
       # opaque iterable: abstracted by 0, 1 or 2 opaque items (recorded as an
       # assumption; only used by trace/dominance obligations)
@@ -913,8 +955,9 @@ class Interp:
     else:
       seq = SymIter.of(it)
     assigned = _assigned_names(s.body) | _target_names(s.target)
-    if _assigned_names(s.body) - _target_names(s.target):
-      raise Unsupported(f'symbolic-length loop assigns locals without an invariant ({frame.name})')
+    temps = _assigned_names(s.body) - _target_names(s.target)
+    if temps and not _loop_local_temporaries(s, temps, frame):
+      raise Unsupported(f'symbolic-length loop assigns live locals {sorted(temps)} without an invariant ({frame.name})')
     if _has_heap_write(s.body):
       raise Unsupported(f'symbolic-length loop writes the heap without an invariant ({frame.name})')
     live_after = getattr(s, '_pyvc_live_after', None)
@@ -988,6 +1031,24 @@ class Interp:
         return z3.And(res, here, rest)
       elif isinstance(st, (ast.Return, ast.Raise, ast.Break)):
         return z3.And(res, z3.BoolVal(False))
+      elif isinstance(st, ast.Assign) and all(isinstance(t, ast.Name) for t in st.targets):
+        exits = []
+        self.path.nf_exits_stack.append(exits)
+        try:
+          self.exec_stmt(st, frame)
+        finally:
+          self.path.nf_exits_stack.pop()
+        for c in exits:
+          res = z3.And(res, z3.Not(c))
+      elif isinstance(st, ast.Expr) and isinstance(st.value, ast.Call):
+        exits = []
+        self.path.nf_exits_stack.append(exits)
+        try:
+          self.eval(st.value, frame)
+        finally:
+          self.path.nf_exits_stack.pop()
+        for c in exits:
+          res = z3.And(res, z3.Not(c))
       elif isinstance(st, (ast.Pass, ast.Continue)):
         if isinstance(st, ast.Continue):
           return res
@@ -1185,6 +1246,11 @@ class Interp:
 
   def to_z3(self, v):
     v = self.resolve(v)
+    if isinstance(v, SOptInt):
+      # using the integer requires it to be present (else Python raises)
+      if not self.path.branch(v.present):
+        raise PyRaise(ExcVal(TypeError, ('NoneType used as int',)))
+      return v.z
     if isinstance(v, (SInt, SReal, SBool, SStr, SBits)):
       return v.z
     if isinstance(v, bool):
@@ -1274,6 +1340,10 @@ class Interp:
   def binop(self, op, a, b, frame=None):
     a = self.resolve(a)
     b = self.resolve(b)
+    if isinstance(a, SOptInt):
+      a = SInt(self.to_z3(a))
+    if isinstance(b, SOptInt):
+      b = SInt(self.to_z3(b))
     if is_concrete(a) and is_concrete(b):
       try:
         return _BIN[op](a, b)
@@ -1395,6 +1465,16 @@ class Interp:
   def compare(self, op, a, b, frame=None):
     a = self.resolve(a)
     b = self.resolve(b)
+    if op not in (ast.Is, ast.IsNot):
+      if isinstance(a, SOptInt):
+        if op in (ast.Eq, ast.NotEq) and b is None:
+          r = SBool(z3.Not(a.present))
+          return simplify_concrete(r if op is ast.Eq else SBool(a.present))
+        a = SInt(self.to_z3(a))
+      if isinstance(b, SOptInt):
+        if op in (ast.Eq, ast.NotEq) and a is None:
+          return simplify_concrete(SBool(z3.Not(b.present)) if op is ast.Eq else SBool(b.present))
+        b = SInt(self.to_z3(b))
     if op is ast.Is:
       return self.identical(a, b)
     if op is ast.IsNot:
@@ -1528,6 +1608,13 @@ class Interp:
   def identical(self, a, b):
     a = self.resolve(a)
     b = self.resolve(b)
+    if isinstance(a, SOptInt) or isinstance(b, SOptInt):
+      o, other = (a, b) if isinstance(a, SOptInt) else (b, a)
+      if other is None:
+        return simplify_concrete(SBool(z3.Not(o.present)))
+      if isinstance(other, SOptInt):
+        raise Unsupported('identity of two optional ints')
+      return False
     if isinstance(a, SAny) or isinstance(b, SAny):
       if a is b:
         return True
@@ -2044,6 +2131,8 @@ class SymIter(SV):
 
   @staticmethod
   def of(it):
+    if isinstance(it, SObj) and isinstance(it.ghost.get('iter_seq'), SSeq):
+      it = it.ghost['iter_seq']
     if isinstance(it, SSeq):
       return SymIter(lambda interp: it.len,
                      lambda interp, i: it.wrap(z3.Select(it.arr, i)))
@@ -2227,6 +2316,41 @@ def _assigned_names(stmts):
 
 def _target_names(t):
   return {n.id for n in ast.walk(t) if isinstance(n, ast.Name)}
+
+
+def _loop_local_temporaries(loop, names, frame):
+  """True if every name is assigned before any use in each iteration and is
+  not read anywhere outside the loop body in the enclosing function."""
+  fn = frame.info.node if frame.info else None
+  if fn is None:
+    return False
+  inside = set()
+  for st in loop.body:
+    for n in ast.walk(st):
+      inside.add(id(n))
+  for n in ast.walk(fn):
+    if isinstance(n, ast.Name) and n.id in names and isinstance(n.ctx, ast.Load) and id(n) not in inside:
+      return False
+  # first occurrence in the body (source order) must be a store
+  first = {}
+  for st in loop.body:
+    occ = sorted((x for x in ast.walk(st) if isinstance(x, ast.Name) and x.id in names),
+                 key=lambda x: (x.lineno, x.col_offset))
+    # within one statement the right-hand side is evaluated first
+    for x in occ:
+      if x.id not in first:
+        first[x.id] = x
+  for nm in names:
+    x = first.get(nm)
+    if x is None or not isinstance(x.ctx, ast.Store):
+      return False
+    # a store whose own statement also loads the name (x = f(x)) is a use
+    for st in loop.body:
+      if any(y is x for y in ast.walk(st)):
+        if any(isinstance(y, ast.Name) and y.id == nm and isinstance(y.ctx, ast.Load) for y in ast.walk(st)):
+          return False
+        break
+  return True
 
 
 def _has_heap_write(stmts):
